@@ -51,15 +51,9 @@ def do_triage(prop, mod, res):
                          "status": "known", "n_cases": len(g["cases"]), "example": g["example"],
                          "cases": g["cases"]})
     store.write_ledger(prop, findings)
-    # human-readable summary (no case maps)
-    p = os.path.join(store.ROOT, "KNOWN_FINDINGS.json")
-    summary = {}
-    if os.path.exists(p):
-        with open(p) as f:
-            summary = json.load(f)
-    summary[prop] = [{k: v for k, v in fd.items() if k != "cases"} for fd in findings]
-    with open(p, "w") as f:
-        json.dump(summary, f, indent=1, sort_keys=True)
+    # human-readable summary (no case maps); tools/build_known_findings.py merges these
+    with open(os.path.join(store.KNOWN, prop + ".summary.json"), "w") as f:
+        json.dump([{k: v for k, v in fd.items() if k != "cases"} for fd in findings], f, indent=1, sort_keys=True)
     print("triage: %d disagreements -> %d findings written to known/%s.json.gz" % (
         len(res.triage), len(findings), prop))
     for fd in findings:
